@@ -169,8 +169,8 @@ func replay(kind string, raw json.RawMessage) (bool, string) {
 // ---- lattices ------------------------------------------------------------------
 
 var edge60 = []int{0, 1, 9, 10, 30, 58, 59}
-var edge60s = []int{0, 1, 30, 59}
-var edgeHour24 = []int{0, 1, 11, 12, 13, 22, 23}
+var edge60q = []int{0, 1, 59}
+var edgeHour24 = []int{0, 1, 12, 23}
 
 // yearLattice: bounds of the field, of the printed width, of the packed
 // year*13+month word (bit 16 flips inside year 5041), and calendar landmarks.
@@ -204,6 +204,21 @@ func fracs(fsp int, wide bool) []int {
 }
 
 type counters struct{ evals, distinct atomic.Int64 }
+
+// deadline: the runner's budget, and for the thorough tier at most 13 minutes
+// (unless VERIF_BUDGET_S says otherwise), so that the run ends within ~15.
+var deadline time.Time
+
+func setDeadline(r *chk.Run) {
+	deadline = time.Now().Add(r.Remaining())
+	if r.Thorough() && os.Getenv("VERIF_BUDGET_S") == "" {
+		if d := time.Now().Add(13 * time.Minute); d.Before(deadline) {
+			deadline = d
+		}
+	}
+}
+
+func expired() bool { return time.Now().After(deadline) }
 
 // ---- the zone independent part ---------------------------------------------------
 
@@ -338,7 +353,7 @@ func runTime2(r *chk.Run, s *sink, c *counters) {
 					}
 				}
 			}
-			if r.Expired() {
+			if expired() {
 				cut.Store(true)
 			}
 		}
@@ -403,8 +418,8 @@ func runDateTime(r *chk.Run, s *sink, c *counters) {
 	} else {
 		years = yearLattice
 		for _, h := range edgeHour24 {
-			for _, mi := range edge60s {
-				for _, sec := range edge60s {
+			for _, mi := range edge60q {
+				for _, sec := range edge60q {
 					times = append(times, hms{h, mi, sec})
 				}
 			}
@@ -424,7 +439,7 @@ func runDateTime(r *chk.Run, s *sink, c *counters) {
 					}
 				}
 			}
-			if r.Expired() {
+			if expired() {
 				cut.Store(true)
 			}
 		}
@@ -434,35 +449,23 @@ func runDateTime(r *chk.Run, s *sink, c *counters) {
 	// part 2: every time of day x date lattice; quick: every year x month x day lattice x one time
 	var dates []ymd
 	for _, y := range yearLattice {
-		for _, m := range []int{0, 1, 12} {
-			for _, d := range []int{0, 1, 31} {
-				dates = append(dates, ymd{y, m, d})
-			}
-		}
+		dates = append(dates, ymd{y, 0, 0}, ymd{y, 1, 1}, ymd{y, 12, 31})
 	}
 	if !full {
-		dates = dates[:0]
-		for _, y := range []int{0, 1000, 1970, 5041, 9999} {
-			for _, m := range []int{0, 12} {
-				for _, d := range []int{0, 31} {
-					dates = append(dates, ymd{y, m, d})
-				}
-			}
-		}
+		dates = []ymd{{0, 0, 0}, {0, 1, 1}, {1000, 1, 1}, {1970, 1, 1}, {2000, 0, 31}, {5041, 3, 0}, {9999, 12, 31}}
 	}
 	r.Parallel(func(shard, n int) {
 		var buf []byte
 		var e, e8 int64
-		for h := shard; h < 24 && !cut.Load(); h += n {
-			for mi := 0; mi < 60; mi++ {
-				for sec := 0; sec < 60; sec++ {
-					for _, dt := range dates {
-						dtOne(&buf, s, false, dt.y, dt.m, dt.d, h, mi, sec, &fr, &e)
-						dtOne(&buf, s, true, dt.y, dt.m, dt.d, h, mi, sec, &fr, &e8)
-					}
+		for hm := shard; hm < 24*60 && !cut.Load(); hm += n {
+			h, mi := hm/60, hm%60
+			for sec := 0; sec < 60; sec++ {
+				for _, dt := range dates {
+					dtOne(&buf, s, false, dt.y, dt.m, dt.d, h, mi, sec, &fr, &e)
+					dtOne(&buf, s, true, dt.y, dt.m, dt.d, h, mi, sec, &fr, &e8)
 				}
 			}
-			if r.Expired() {
+			if expired() {
 				cut.Store(true)
 			}
 		}
@@ -547,6 +550,7 @@ func emit(cs *childSummary) {
 const tsMax = uint32(1<<31 - 1) // '2038-01-19 03:14:07' UTC, the last TIMESTAMP
 
 func child(r *chk.Run, zone string) {
+	setDeadline(r)
 	cs := &childSummary{Zone: zone}
 	loc, err := time.LoadLocation(zone)
 	if err != nil {
@@ -764,7 +768,7 @@ func child(r *chk.Run, zone string) {
 				}
 			}
 			done.Add(1)
-			if r.Expired() {
+			if expired() {
 				cut.Store(true)
 			}
 		}
@@ -841,22 +845,31 @@ func run(r *chk.Run) {
 	if zone := os.Getenv(envChild); zone != "" {
 		child(r, zone) // does not return
 	}
+	setDeadline(r)
 	s := &sink{r: r}
 	var c counters
-	runDates(r, s, &c)
-	runTime3(r, s, &c)
-	runTime2(r, s, &c)
-	runDateTime(r, s, &c)
+	walls := map[string]float64{}
+	phase := func(name string, fn func()) {
+		t0 := time.Now()
+		fn()
+		walls[name] = float64(int(time.Since(t0).Seconds()*10)) / 10
+	}
+	phase("date", func() { runDates(r, s, &c) })
+	phase("time 3-byte", func() { runTime3(r, s, &c) })
+	phase("time2 fsp1-6", func() { runTime2(r, s, &c) })
+	phase("datetime", func() { runDateTime(r, s, &c) })
 	r.Eval(c.evals.Load())
 	r.DistinctN(c.distinct.Load())
 
 	exhaustive := true
 	for i, zone := range Zones {
-		left := r.Remaining() / time.Duration(len(Zones)-i)
+		left := time.Until(deadline) / time.Duration(len(Zones)-i)
 		if left < 5*time.Second {
 			left = 5 * time.Second
 		}
-		cs, err := spawn(zone, fmt.Sprintf("VERIF_BUDGET_S=%d", int(left.Seconds())))
+		var cs *childSummary
+		var err error
+		phase("timestamp "+zone, func() { cs, err = spawn(zone, fmt.Sprintf("VERIF_BUDGET_S=%d", int(left.Seconds()))) })
 		if err != nil {
 			chk.Fatalf("%v", err)
 		}
@@ -876,6 +889,7 @@ func run(r *chk.Run) {
 		}
 	}
 	r.Set("zones", Zones)
+	r.Set("phase_wall_s", walls)
 	r.Rule("odometer enumeration of the abstract field values (sign, year, month, day, hour, minute, second, fraction, fsp; instants for TIMESTAMP) of each temporal type; the reference (verif/ref/temporal.go) encodes each value as the server stores it and renders MySQL's canonical text; every input is a distinct (type, fsp, bytes) and is decoded by replication.CellBytes between sentinels (3-byte types and lattices at two offsets, bulk products at one rotating offset); text and consumed length must be equal. TIMESTAMP runs in one subprocess per zone (TZ=<zone>); the expected text is the instant in time.LoadLocation(zone), cross-checked against literal anchors")
 	r.Assume("only values a server can store: month 0..12, day 0..31 (zero dates, zero-in-date and ALLOW_INVALID_DATES days included), year 0..9999, TIME within +-838:59:59.000000, no negative zero, fraction a multiple of 10^(6-fsp)")
 	r.Assume("TIMESTAMP instants are 0 (the zero timestamp, fraction 0) or 1..2^31-1 ('1970-01-01 00:00:01' .. '2038-01-19 03:14:07' UTC, the server's range)")
